@@ -140,21 +140,21 @@ pub fn check_walk(
   evals
 }
 
-fn body(n_specs: usize, max_edges: usize, build_kinds: &'static [GraphKind]) -> impl Fn(&Ch) -> Run + Sync + Send {
+/// option sets without the dimensions that cannot matter for a world space
+/// (no JavaScript => check_js is irrelevant; no fast-check modules =>
+/// prefer_fast_check is irrelevant)
+pub fn reduced_opts(with_check_js: bool) -> Vec<Opts> {
+  all_opts()
+    .into_iter()
+    .filter(|o| !o.prefer_fast_check && (with_check_js || matches!(o.check_js, CheckJs::True)))
+    .collect()
+}
+
+fn body(space: Space, build_kinds: &'static [GraphKind], opts: Vec<Opts>) -> impl Fn(&Ch) -> Run + Sync + Send {
   move |ch: &Ch| {
     let mut run = Run::default();
-    let world = World::generate(
-      ch,
-      &GenOpts {
-        n_specs,
-        max_edges,
-        special_targets: true,
-        allow_remote: true,
-        kinds: KINDS,
-        deviation_cost: true,
-        max_roots: 2,
-      },
-    );
+    let n_specs = space.n_specs;
+    let world = space.generate(ch, 2, None);
     let with_import = ch.choose("configured_type_import", 2) == 1;
     let mut outcomes = vec![];
     for build_kind in build_kinds {
@@ -199,7 +199,7 @@ fn body(n_specs: usize, max_edges: usize, build_kinds: &'static [GraphKind]) -> 
         }
       }
       for roots in &root_sets {
-        for o in all_opts() {
+        for o in opts.iter().copied() {
           let case = || {
             json!({"world": world.describe(), "build_kind": format!("{build_kind:?}"), "configured_type_import": with_import,
               "walk_roots": roots.iter().map(|r| r.as_str()).collect::<Vec<_>>(), "options": format!("{o:?}")})
@@ -227,25 +227,40 @@ pub fn prop(tier: Tier) -> Prop {
   let parts = match tier {
     Tier::Quick => vec![Part {
       name: "worlds",
-      body: Box::new(body(3, 2, &ALL_ONLY)),
+      body: Box::new(body(Space::generic(3, 2), &ALL_ONLY, all_opts())),
       modes: vec![Mode::Deviations(2), Mode::Deviations(3)],
       what: "3-specifier worlds, <= 2 edges, graphs built with kind All; 36 walk option sets x 6 root sets x skip sets",
     }],
     Tier::Thorough => vec![
       Part {
         name: "worlds",
-        body: Box::new(body(3, 3, &ALL_KINDS)),
+        body: Box::new(body(Space::generic(3, 3), &ALL_KINDS, all_opts())),
         modes: vec![Mode::Deviations(3), Mode::Deviations(4)],
         what: "3-specifier worlds, <= 3 edges, graphs built with all three kinds",
       },
       Part {
         name: "worlds4",
-        body: Box::new(body(4, 3, &ALL_ONLY)),
+        body: Box::new(body(Space::generic(4, 3), &ALL_ONLY, all_opts())),
         modes: vec![Mode::Deviations(2), Mode::Deviations(3)],
         what: "4-specifier worlds, <= 3 edges",
       },
     ],
   };
+  let mut parts = parts;
+  match tier {
+    Tier::Quick => parts.push(Part {
+      name: "core",
+      body: Box::new(body(Space::core(3, 3, CORE_KINDS_QUICK), &ALL_ONLY, reduced_opts(false))),
+      modes: vec![Mode::Full],
+      what: "every world over the core alphabet, enumerated completely: 3 specifiers (root TypeScript, others TypeScript or missing), <= 3 edges from {import, dynamic import, import type}",
+    }),
+    Tier::Thorough => parts.push(Part {
+      name: "core",
+      body: Box::new(body(Space::core(3, 3, CORE_KINDS), &ALL_ONLY, reduced_opts(true))),
+      modes: vec![Mode::Full],
+      what: "every world over the core alphabet, enumerated completely: 3 specifiers (kinds TypeScript / missing / JavaScript / JSON / redirect), <= 3 edges from {import, dynamic import, import type}",
+    }),
+  }
   Prop {
     id: "C15",
     rule: "state = (world, configured type import yes/no); per state the built graph(s) are walked from every root set of <= 2 world specifiers (incl. redirect sources, error entries, absent ones) under all 36 option sets (3 kinds x follow_dynamic x check_js True/False/Custom x prefer_fast_check) and with skip_previous_dependencies() after each single yielded entry and after every entry; the yielded set (no duplicates) and the keyed error listing are compared with a set-based reference fixpoint over the graph's public data. Non-trivial = world with >= 2 edges or a non-default import form.".into(),
